@@ -475,6 +475,21 @@ func (ic *instCtx) instantiate(asserts []*Sx, rounds int) []*Sx {
 					if len(ctxs) == 0 {
 						varContexts(body, n, bound, ctxs)
 					}
+					// untyped contexts (root, dyntype, ...) collect references of every type: use them only
+					// when the variable has no typed context (field array index, embedded-object function)
+					typed := 0
+					for c := range ctxs {
+						if !genericCtx(c) {
+							typed++
+						}
+					}
+					if typed > 0 {
+						for c := range ctxs {
+							if genericCtx(c) {
+								delete(ctxs, c)
+							}
+						}
+					}
 					set := map[string]*Sx{}
 					for c := range ctxs {
 						for s, t := range ground[c] {
@@ -669,4 +684,10 @@ func flattenAssert(x *Sx, out *[]*Sx) {
 		return
 	}
 	*out = append(*out, x)
+}
+
+func genericCtx(c ctxKey) bool {
+	s := string(c)
+	return strings.HasPrefix(s, "root|") || strings.HasPrefix(s, "dyntype|") || strings.HasPrefix(s, "subtag|") ||
+		strings.HasPrefix(s, "strlen|") || s == "selany" || strings.HasPrefix(s, "selroot|ghost_") || strings.HasPrefix(s, "select|H0.ghost_")
 }
